@@ -715,23 +715,28 @@ class IntervalTier(textgrid_tier.TextgridTier):
         Returns:
             The modified version of the current tier
         """
-        cumulativeAdjustAmount = 0
         newEntryList = []
+        lastSourceEnd = None
+        lastNewEnd = None
         allIntervals = [self.entries, targetTier.entries]
         for sourceInterval, targetInterval in utils.safeZip(allIntervals, True):
-            # sourceInterval.start - lastFromEnd -> was this interval and the
-            # last one adjacent?
-            newStart = sourceInterval.start + cumulativeAdjustAmount
+            # Keep the gap to the previous interval: adjacent intervals
+            # stay exactly adjacent
+            if lastNewEnd is None:
+                newStart = sourceInterval.start
+            else:
+                newStart = lastNewEnd + (sourceInterval.start - lastSourceEnd)
 
             currIntervalDuration = sourceInterval.end - sourceInterval.start
             if filterFunc is None or filterFunc(sourceInterval.label):
                 newIntervalDuration = targetInterval.end - targetInterval.start
-                cumulativeAdjustAmount += newIntervalDuration - currIntervalDuration
                 newEnd = newStart + newIntervalDuration
             else:
                 newEnd = newStart + currIntervalDuration
 
             newEntryList.append(Interval(newStart, newEnd, sourceInterval.label))
+            lastSourceEnd = sourceInterval.end
+            lastNewEnd = newEnd
 
         newMin = self.minTimestamp
         cumulativeDifference = newEntryList[-1].end - self.entries[-1].end
